@@ -867,11 +867,17 @@ func (w *_assembler) assignUInt(uin datamodel.UintNode) error {
 		if err != nil {
 			return err
 		}
-		if kindUint[w.val.Kind()] {
-			w.createNonPtrVal().SetUint(i)
+		val := w.createNonPtrVal()
+		if kindUint[val.Kind()] {
+			if val.OverflowUint(i) {
+				return fmt.Errorf("bindnode: integer %d does not fit in %s", i, val.Type())
+			}
+			val.SetUint(i)
 		} else {
-			// TODO: check for overflow
-			w.createNonPtrVal().SetInt(int64(i))
+			if i > math.MaxInt64 || val.OverflowInt(int64(i)) {
+				return fmt.Errorf("bindnode: integer %d does not fit in %s", i, val.Type())
+			}
+			val.SetInt(int64(i))
 		}
 	}
 	if w.finish != nil {
@@ -886,7 +892,6 @@ func (w *_assembler) AssignInt(i int64) error {
 	if err := compatibleKind(w.schemaType, datamodel.Kind_Int); err != nil {
 		return err
 	}
-	// TODO: check for overflow
 	customConverter := w.cfg.converterFor(w.schemaType.Name(), w.val)
 	_, isAny := w.schemaType.(*schema.TypeAny)
 	if customConverter != nil {
@@ -910,14 +915,20 @@ func (w *_assembler) AssignInt(i int64) error {
 		if isAny {
 			// Any means the Go type must receive a datamodel.Node
 			w.createNonPtrVal().Set(reflect.ValueOf(basicnode.NewInt(i)))
-		} else if kindUint[w.val.Kind()] {
+		} else if val := w.createNonPtrVal(); kindUint[val.Kind()] {
 			if i < 0 {
 				// TODO: write a test
-				return fmt.Errorf("bindnode: cannot assign negative integer to %s", w.val.Type())
+				return fmt.Errorf("bindnode: cannot assign negative integer to %s", val.Type())
 			}
-			w.createNonPtrVal().SetUint(uint64(i))
+			if val.OverflowUint(uint64(i)) {
+				return fmt.Errorf("bindnode: integer %d does not fit in %s", i, val.Type())
+			}
+			val.SetUint(uint64(i))
 		} else {
-			w.createNonPtrVal().SetInt(i)
+			if val.OverflowInt(i) {
+				return fmt.Errorf("bindnode: integer %d does not fit in %s", i, val.Type())
+			}
+			val.SetInt(i)
 		}
 	}
 	if w.finish != nil {
